@@ -5,6 +5,7 @@ package main
 // go / defer.
 
 import (
+	"go/token"
 	"fmt"
 	"go/types"
 	"strings"
@@ -1334,14 +1335,152 @@ func (fx *FnExec) doAppend(st *State, fr *frame, x *ssa.Call) {
 		twin := fx.winOf(es, "(select "+mem+" (sptr "+t+"))", "(soff "+t+")")
 		st.assume(fmt.Sprintf("(forall ((q.i Int)) (! (= (select %s q.i) (ite (and (<= %s q.i) (< q.i (+ %s %s))) (select %s (- q.i %s)) (select %s q.i))) :pattern ((select %s q.i))))", arr, ls, ls, lt, twin, ls, arr0, arr))
 	}
-	st.heapSet(mn, ms, "(store "+mem+" "+r+" "+arr+")")
 	cp := fx.freshConst("append.cap", "Int")
 	st.assume("(>= " + cp + " (+ " + ls + " " + lt + "))")
-	res := fmt.Sprintf("(mkslice %s 0 (+ %s %s) %s)", r, ls, lt, cp)
+	// Go appends in place when the capacity suffices: the elements land in the
+	// argument's own backing array (visible through every alias of it);
+	// otherwise a new array is allocated.
+	fits := fx.freshConst("append.fits", "Bool")
+	if localBuilt(cc.Args[0], map[ssa.Value]bool{}) {
+		// The slice was built by this function (nil, make, append): whether the
+		// elements land in its own array or in a new one cannot be observed
+		// through any other reference, except by a local alias of the same
+		// array (not modelled); the new-array view keeps loop summaries simple.
+		st.assume("(= " + fits + " false)")
+	} else {
+		st.assume("(= " + fits + " (and (not (= (sptr " + s + ") 0)) (> " + lt + " 0) (<= (+ " + ls + " " + lt + ") (scap " + s + "))))")
+	}
+	base := "(select " + mem + " (sptr " + s + "))"
+	start := "(+ (soff " + s + ") " + ls + ")"
+	var arrI Term
+	switch {
+	case single:
+		elem := "(select (select " + mem + " (sptr " + t + ")) (soff " + t + "))"
+		arrI = "(store " + base + " " + start + " " + elem + ")"
+	default:
+		arrI = fx.freshConst("append.inplace", arrOf(es))
+		var src string
+		if fx.sortOf(cc.Args[1].Type()) == "Str" {
+			src = "(strat " + t + " (- q.i " + start + "))"
+		} else {
+			twin := fx.winOf(es, "(select "+mem+" (sptr "+t+"))", "(soff "+t+")")
+			src = "(select " + twin + " (- q.i " + start + "))"
+		}
+		st.assume(fmt.Sprintf("(forall ((q.i Int)) (! (= (select %s q.i) (ite (and (<= %s q.i) (< q.i (+ %s %s))) %s (select %s q.i))) :pattern ((select %s q.i))))", arrI, start, start, lt, src, base, arrI))
+	}
+	tp := "(ite " + fits + " (sptr " + s + ") " + r + ")"
+	st.heapSet(mn, ms, "(store "+mem+" "+tp+" (ite "+fits+" "+arrI+" "+arr+"))")
+	res := fmt.Sprintf("(ite %s (mkslice (sptr %s) (soff %s) (+ %s %s) (scap %s)) (mkslice %s 0 (+ %s %s) %s))", fits, s, s, ls, lt, s, r, ls, lt, cp)
 	if !single {
 		res = "(ite (= " + lt + " 0) " + s + " " + res + ")"
 	}
 	st.vals[x] = res
+}
+
+// localBuilt: the slice value is nil, freshly made, or built from such by
+// append/reslice in this function - its backing array, if any, was allocated by
+// this function.
+func localBuilt(v ssa.Value, seen map[ssa.Value]bool) bool {
+	if seen[v] {
+		return true
+	}
+	seen[v] = true
+	switch x := v.(type) {
+	case *ssa.Const:
+		return x.IsNil()
+	case *ssa.MakeSlice:
+		return true
+	case *ssa.Slice:
+		if _, ok := x.X.(*ssa.Alloc); ok {
+			return true
+		}
+		return localBuilt(x.X, seen)
+	case *ssa.Phi:
+		for _, e := range x.Edges {
+			if !localBuilt(e, seen) {
+				return false
+			}
+		}
+		return true
+	case *ssa.Call:
+		if b, ok := x.Common().Value.(*ssa.Builtin); ok && b.Name() == "append" {
+			return localBuilt(x.Common().Args[0], seen)
+		}
+	case *ssa.ChangeType:
+		return localBuilt(x.X, seen)
+	case *ssa.UnOp:
+		// a local variable kept in a cell (captured by a closure): local-built
+		// if everything ever stored into the cell is
+		if x.Op != token.MUL {
+			return false
+		}
+		cell, root := cellOf(x.X)
+		if cell == nil {
+			return false
+		}
+		ok := true
+		var scan func(fn *ssa.Function, addr ssa.Value)
+		scan = func(fn *ssa.Function, addr ssa.Value) {
+			for _, b := range fn.Blocks {
+				for _, ins := range b.Instrs {
+					switch y := ins.(type) {
+					case *ssa.Store:
+						if y.Addr == addr && !localBuilt(y.Val, seen) {
+							ok = false
+						}
+					case *ssa.MakeClosure:
+						cf := y.Fn.(*ssa.Function)
+						for i, bnd := range y.Bindings {
+							if bnd == addr && i < len(cf.FreeVars) {
+								scan(cf, cf.FreeVars[i])
+							}
+						}
+					case *ssa.Call:
+						// the cell's address escapes to a callee: give up
+						for _, a := range y.Common().Args {
+							if a == addr {
+								ok = false
+							}
+						}
+					}
+				}
+			}
+		}
+		scan(root, cell)
+		return ok
+	}
+	return false
+}
+
+// cellOf: addr is a local variable's cell (an Alloc, possibly seen through the
+// free variables of nested closures); returns the Alloc and its function.
+func cellOf(addr ssa.Value) (ssa.Value, *ssa.Function) {
+	switch a := addr.(type) {
+	case *ssa.Alloc:
+		if _, isSlice := a.Type().Underlying().(*types.Pointer).Elem().Underlying().(*types.Slice); isSlice {
+			return a, a.Parent()
+		}
+	case *ssa.FreeVar:
+		fn := a.Parent()
+		parent := fn.Parent()
+		if parent == nil {
+			return nil, nil
+		}
+		idx := -1
+		for i, fv := range fn.FreeVars {
+			if fv == a {
+				idx = i
+			}
+		}
+		for _, b := range parent.Blocks {
+			for _, ins := range b.Instrs {
+				if mc, ok := ins.(*ssa.MakeClosure); ok && mc.Fn == fn && idx >= 0 && idx < len(mc.Bindings) {
+					return cellOf(mc.Bindings[idx])
+				}
+			}
+		}
+	}
+	return nil, nil
 }
 
 
